@@ -1162,15 +1162,21 @@ def run(ctx):
         "conventions (from the docstrings): operator matrix rows = upper (ket-like) indices; x.overlap(y) = <y|x>; expec_TN_1D(x.H, A, y) = <x|A|y>; .H of an operator conjugates without transposing",
         "a record whose exact evaluation could exceed TLC's 32-bit integers (or float32's integer range) is not logged (counted in records_skipped_for_magnitude)",
         "max_bond=None may be rejected by the methods whose documentation demands a cap (src*, srcmps*, sdc-oversample, fit*)",
+        "a LinAlgError of fit-projector (its 'projector' guess divides by exactly zero singular values of a rank-deficient bond) is a loud refusal: accepted by Returns, counted in numerical_refusals",
         "'nothing needs truncating' = cutoff 0 and cap None or >= every exact Schmidt rank of the input (for stacks with several tensors per site: >= every stacked bond)",
         "tolerances: float64 1e-8 relative (fit-type methods 1e-6), float32 2e-4 (2e-3); isometry defects <= 1e-6 (1e-3)",
         "error bound: ||in-out||^2 <= sum over bonds of the input's discarded Schmidt weight beyond the returned bond size (numpy SVD of the dense input), in units of 1e-9 ||in||^2",
         "generic (non 1D) compression methods reachable through tensor_network_1d_compress(method=...) and periodic compression are not covered",
     ]
     notes = [f for f in fails if f["clause"].startswith("NOTE:")]
+    refusals = [n for n in notes if n["clause"] == "NOTE:NumericalRefusal"]
+    notes = [n for n in notes if n["clause"] != "NOTE:NumericalRefusal"]
     for n in notes[:10]:
         ctx.notes.append("model-drift %s at %s %s" % (n["clause"], n["record"].get("ev"), n["record"].get("op") or n["record"].get("method")))
     ctx.extra["model_drift_records"] = len(notes)
+    ctx.extra["numerical_refusals"] = len(refusals)
+    if refusals:
+        ctx.notes.append("fit-projector refused %d rank-deficient inputs with LinAlgError (loud refusal, not a wrong value)" % len(refusals))
     real = [f for f in fails if not f["clause"].startswith("NOTE:")]
     for f in real:
         for big in ("val", "input"):
